@@ -15,6 +15,7 @@ import Mashu.Share
 import Mashu.Hooks
 import Mashu.Namespace
 import Mashu.Schema
+import Mashu.Mro
 import Mashu.Generated
 open Lean
 
@@ -30,7 +31,7 @@ def getLeaves (j : Json) (k : String) : List Leaf :=
 
 def getCx (j : Json) : Cx :=
   { passLeaves := getLeaves j "pass_leaves", noCopyList := getB j "no_copy_list" false, noCopyDict := getB j "no_copy_dict" false, nailed := getB j "nailed" true, ntAsDict := getB j "nt_as_dict" false,
-    fixK1 := getB j "fixK1" false, fixK2 := getB j "fixK2" false, fixK10 := getB j "fixK10" false, fixK3 := getB j "fixK3" false }
+    fixK1 := getB j "fixK1" false, fixK2 := getB j "fixK2" false, fixK10 := getB j "fixK10" false, fixK3 := getB j "fixK3" true }
 
 def coreWith (O : Oracle) (op : String) (j : Json) : Except String Json := do
   let ty ← toTy (j.getObjValD "ty")
@@ -440,6 +441,25 @@ def dispatch (j : Json) : Except String Json := do
   | "hooks" => dispatchHooks j
   | "namespace" | "cleanid" => dispatchNamespace op j
   | "schema" => dispatchSchema j
+  | "mro" => do
+      let dictOf (e : Json) : Except String Mro.Dict := do
+        (← arr e).toList.mapM (fun kv => do
+          let a ← arr kv
+          let o ← (match a[1]! with | .num n => pure n.mantissa.toNat | _ => throw "bad id")
+          pure ((← str a[0]!), o))
+      let ancs ← (← arr (j.getObjValD "ancs")).toList.mapM (fun e => match e with
+        | .null => pure (none : Option Mro.Dict)
+        | e => do pure (some (← dictOf e)))
+      let own ← (← arr (j.getObjValD "own")).toList.mapM (fun kv => do
+        let a ← arr kv
+        let o : Mro.Own ← (match a[1]! with | .num n => pure (Mro.Own.field n.mantissa.toNat) | .null => pure Mro.Own.plain | _ => throw "bad own")
+        pure ((← str a[0]!), o))
+      let keys ← (← arr (j.getObjValD "keys")).toList.mapM str
+      let d := Mro.collect Generated.mroFarthestFirst ancs own
+      let enc (o : Option Nat) : Json := match o with | some n => Json.num (JsonNumber.fromNat n) | none => Json.null
+      pure (Json.mkObj [("view", Json.arr (keys.map (fun k => enc (Mro.get d k))).toArray),
+                        ("spec", Json.arr (keys.map (fun k => enc (Mro.spec ancs own k))).toArray),
+                        ("order", Json.arr (d.map (fun kv => Json.str kv.1)).toArray)])
   | _ => throw s!"unknown op {op}"
 
 end Mashu
